@@ -338,6 +338,9 @@ def find_missing_callees(diags, regions):
     unknown method/function and the unit's source files define it, return (owner, fn, relpath) so that it is
     extracted verbatim (with no contract: callers then know nothing about its result)."""
     files = sorted({r.info['src_file'] for r in regions if r.kind == 'fn'})
+    # items emitted under another name (`name=`): emitted -> (source name, file)
+    alias = {r.info.get('emitted_name'): (r.info.get('source_name'), r.info['src_file']) for r in regions
+             if r.kind == 'item' and r.info.get('emitted_name') != r.info.get('source_name')}
     out = []
     for d in diags:
         if d.get('level') != 'error':
@@ -350,12 +353,18 @@ def find_missing_callees(diags, regions):
             if not m2:
                 continue
             owner, fname = '', m2.group(1)
-        for rel in files:
+        src_owner = owner
+        search = files
+        if owner in alias:
+            src_owner, f0 = alias[owner]
+            search = [f0] + [f for f in files if f != f0]
+        for rel in search:
             try:
                 src = extract.load_source(rel)
-                extract.find_fn(src, (owner + '::' if owner else '') + fname)
-                if (owner, fname, rel) not in out:
-                    out.append((owner, fname, rel))
+                extract.find_fn(src, (src_owner + '::' if src_owner else '') + fname)
+                ent = (owner, fname, rel, src_owner)
+                if ent not in out:
+                    out.append(ent)
                 break
             except extract.LostAnchor:
                 continue
@@ -393,13 +402,13 @@ def run_unit(name, tier='quick', keep=False, rebaseline=False):
             missing = [m for m in missing if m not in auto]
             if not missing:
                 break
-            for (owner, fname, relpath) in missing:
-                auto.append((owner, fname, relpath))
+            for (owner, fname, relpath, src_owner) in missing:
+                auto.append((owner, fname, relpath, src_owner))
                 if owner:
-                    extra_tail += f'\nimpl {owner} {{\n//@fn {relpath} {owner}::{fname}\n//@end\n}}\n'
+                    extra_tail += f'\nimpl {owner} {{\n//@fn {relpath} {src_owner}::{fname}\n//@end\n}}\n'
                 else:
                     extra_tail += f'\n//@fn {relpath} {fname}\n//@end\n'
-        res['auto_extracted'] = [f'{o + "::" if o else ""}{f} ({r})' for (o, f, r) in auto]
+        res['auto_extracted'] = [f'{o + "::" if o else ""}{f} ({r})' for (o, f, r, _s) in auto]
         res['props'] = unit['props']
         res['rewrites'] = log
         gen = os.path.join(work, name + '.rs')
